@@ -353,6 +353,8 @@ impl CodeGen for WidthMappingTableGen {
     }
 }
 
+const LAST_CODEPOINT: u32 = 0x10FFFF;
+
 /// Generator that creates a table of unassigned Unicode code points
 pub struct UnassignedTableGen {
     name: String,
@@ -383,7 +385,7 @@ impl UcdLineParser<ucd_parsers::UnicodeData> for UnassignedTableGen {
                     common::add_codepoints(&self.range, &mut self.vec);
                 }
                 self.range.start = ucd_parse::Codepoint::from_u32(r.end.value() + 1)?;
-                self.range.end = r.start;
+                self.range.end = self.range.start;
             }
             Codepoints::Single(ref cp) => {
                 let next_cp = ucd_parse::Codepoint::from_u32(cp.value() + 1)?;
@@ -402,6 +404,15 @@ impl UcdLineParser<ucd_parsers::UnicodeData> for UnassignedTableGen {
 
 impl CodeGen for UnassignedTableGen {
     fn generate_code(&mut self, file: &mut File) -> Result<(), Error> {
-        file_writer::generate_code_from_vec(file, &self.name, &self.vec)
+        // Code points after the last entry in the file are unassigned too
+        let mut vec = self.vec.clone();
+        if self.range.start.value() <= LAST_CODEPOINT {
+            let tail = ucd_parse::CodepointRange {
+                start: self.range.start,
+                end: ucd_parse::Codepoint::from_u32(LAST_CODEPOINT)?,
+            };
+            common::add_codepoints(&tail, &mut vec);
+        }
+        file_writer::generate_code_from_vec(file, &self.name, &vec)
     }
 }
